@@ -372,6 +372,7 @@ def rule_loops(s, loops):
     edits = []   # (char position, text)
     fired = 0
     counts = {}
+    skipped = []
     wanted = {}
     for key, val in loops.items():
         fn, k = key.rsplit('#', 1)
@@ -416,7 +417,10 @@ def rule_loops(s, loops):
         counts[name] = len(loopsites)
         for k, val in wanted[name].items():
             if k >= len(loopsites):
-                raise ExtractionError('loop side-car %s#%d: function has only %d loops' % (name, k, len(loopsites)))
+                # the annotated loop no longer exists (e.g. a retry loop was removed): nothing to
+                # attach; the function is verified as it now is (its postconditions decide)
+                skipped.append('%s#%d' % (name, k))
+                continue
             kw, ti = loopsites[k]
             if kw == 'do':
                 at = toks[ti][2]
@@ -442,6 +446,7 @@ def rule_loops(s, loops):
     for at, txt in edits:
         out.append(s[pos:at]); out.append(txt); pos = at
     out.append(s[pos:])
+    counts['__skipped__'] = skipped
     return ''.join(out), fired, counts
 
 def rule_cut_goto(s, cuts):
